@@ -57,6 +57,7 @@ def immutability(stats, m, sub="skeleton"):
     simplifying / differentiating operations (each twice: the second pass meets memo flags set by the first), and
     verify that no pre-existing object - nor any expression returned earlier - changed."""
     from .c14 import walk_objects
+    m = safe(m)
     stats.case()
     e = build(m)
     pairs = []
